@@ -62,7 +62,10 @@ CLAIMED = {
               '(data, cell, iter, iter_pairwise, nonzero, sums, nnz, density) '
               'incl. suspended generators stepped between other events is '
               'compared with the dense model; callback faults (F1), unknown '
-              'ids (F2).' + _SAMPLING, _WORLD_NOTE,
+              'ids (F2), profile reactions inside operations (F6); a dense '
+              'reader-interleaving probe; plus every sequence of length <= 2 '
+              '(thorough: a quarter of length 3) over a 50-letter operation '
+              'alphabet on a 2x3 table.' + _SAMPLING, _WORLD_NOTE,
               'coherence invariants after every event + accessor-vs-model'),
     'C06': _c('sort (natsort re-implemented independently, custom sort '
               'functions), sort_order (all permutations of short axes by '
@@ -70,7 +73,9 @@ CLAIMED = {
               '(lengthening, shortening, rotating, colliding, partial) after '
               'arbitrary histories; result must equal the model permutation / '
               'relabelling incl. metadata; inverse pairs restore content; '
-              'unknown ids refused without change.' + _SAMPLING, _WORLD_NOTE,
+              'unknown (look-alike) ids refused without change; plus every '
+              'permutation of axes up to length 4 x 3 layouts.' + _SAMPLING,
+              _WORLD_NOTE,
               'reorder/rename ops vs model after simulated histories'),
     'C07': _c('Pool kept full so receivers, arguments and results coexist and '
               'keep being mutated in place; after every event every bystander '
@@ -85,8 +90,10 @@ CLAIMED = {
               'predicates (call log: once per id, in order, true dense vector, '
               'id, metadata), remove_empty, head, after histories biased to '
               'reorderings (unsorted indices); unknown ids must raise and '
-              'change nothing; predicate faults at every invocation index.'
-              + _SAMPLING, _WORLD_NOTE,
+              'change nothing; predicate faults at every invocation index; '
+              'plus the exhaustive small scope: every matrix over {0,1,2} up '
+              'to 2x3/3x2 (thorough 3x3) x 3 layouts x axis x subset x invert '
+              'x in-place/not.' + _SAMPLING, _WORLD_NOTE,
               'filter ops vs model + predicate call-log oracle'),
     'C09': _c('merge of pairs / k-tuples with forced overlap patterns, four '
               'union/intersection combinations, metadata on neither/either/'
